@@ -157,7 +157,8 @@ CHECKS = {
                 "specification gives its text. DBREF / SEQADV / MODRES records are part of the specification (annotation of the first model that has "
                 "the chain, names and insertion codes compared in their stored case); the MODRES pass of the reader model is proved equal to the "
                 "specification's step on every structure (Proofs/C01annot.v), and the simulation is carried across MODEL / ENDMDL records: the "
-                "models the reader model has built are the models of the specification walk for every well-formed record sequence (Proofs/C01models.v).",
+                "models the reader model has built are the models of the specification walk for every well-formed record sequence (Proofs/C01models.v); with HEADER, REMARK and CRYST1 records in between, "
+                "identifier, remarks, cell and space group are the specification's as well (Proofs/C01meta.v).",
         "design_ref": "DESIGN.md section 6 C01",
         "note": "Partial: the refinement read_pdb (render recs) = denote recs is checked by correspondence, not proved; SSBOND is "
                 "covered by the reader-model correspondence only (DBREF / SEQADV are specified and compared, not proved); SEQRES validation is not modelled. Trusted: Coq kernel, T2 table translators, the "
